@@ -32,6 +32,7 @@ mod reqlife;
 mod reqrep;
 mod server;
 mod shutdown;
+mod subflood;
 
 pub fn arg(args: &[String], name: &str) -> Option<String> {
     args.iter().position(|a| a == name).and_then(|i| args.get(i + 1).cloned())
@@ -495,6 +496,8 @@ fn main() {
             Some("reqlife") => reqlife::cmd_reqlife(args.clone()).await,
             Some("replife") => replife::cmd_replife(args.clone()).await,
             Some("publife") => publife::cmd_publife(args.clone()).await,
+            Some("subflood") => subflood::cmd_subflood(args.clone()).await,
+            Some("subflood-child") => subflood::cmd_subflood_child(args.clone()).await,
             Some("keepalive") => keepalive::cmd_keepalive(args.clone()).await,
             _ => Err(anyhow!("usage: e2e pubsub|reqrep|server|stall|tls|keepalive --out T ...")),
         }
